@@ -224,3 +224,75 @@ Section Traverse.
   Corollary reported_visible spec t p q d : In (q, d) (reported (events spec p t)) -> visible spec p q.
   Proof. intros H. eapply entries_visible. eapply Permutation_in; [apply traversal_exact|exact H]. Qed.
 End Traverse.
+
+(* ---- well-formed trees: names within a folder are distinct (any real directory) ---- *)
+Section WfTree.
+  Variable matches : list text -> text -> bool.
+  Variable C : Type.
+  Notation node := (node C).
+
+  Inductive wf_tree : node -> Prop :=
+  | wf_file c : wf_tree (File c)
+  | wf_dir h kids : NoDup (map fst kids) -> Forall (fun nk => wf_tree (snd nk)) kids -> wf_tree (Dir h kids).
+
+  Lemma entries_below spec : forall t p q d, In (q, d) (entries matches C spec p t) -> exists n s, q = p ++ n :: s.
+  Proof.
+    induction t as [c|h kids IH] using node_ind'; intros p q d H; [destruct H|].
+    rewrite entries_dir in H. apply in_flat_map in H. destruct H as [nk [Hin Hq]].
+    unfold entries_of_kid in Hq. destruct (ignored matches spec (p ++ [fst nk])); [destruct Hq|].
+    destruct Hq as [Hq|Hq].
+    - injection Hq as <- _. exists (fst nk), []. reflexivity.
+    - rewrite Forall_forall in IH. destruct (IH nk Hin _ _ _ Hq) as [n [s ->]]. exists (fst nk), (n :: s).
+      rewrite <- app_assoc. reflexivity.
+  Qed.
+  Lemma entries_of_kid_below spec p nk q d : In (q, d) (entries_of_kid matches C spec p nk) -> exists s, q = p ++ fst nk :: s.
+  Proof.
+    unfold entries_of_kid. destruct (ignored matches spec (p ++ [fst nk])); [intros []|].
+    intros [H|H].
+    - injection H as <- _. exists []. reflexivity.
+    - destruct (entries_below spec _ _ _ _ H) as [n [s ->]]. exists (n :: s). rewrite <- app_assoc. reflexivity.
+  Qed.
+
+  Lemma NoDup_app_intro {A} (a b : list A) : NoDup a -> NoDup b -> (forall x, In x a -> In x b -> False) -> NoDup (a ++ b).
+  Proof.
+    induction a as [|x a IH]; intros Ha Hb Hd; cbn; [exact Hb|]. inversion Ha; subst. constructor.
+    - rewrite in_app_iff. intros [H|H]; [contradiction|]. apply (Hd x); [left; reflexivity|exact H].
+    - apply IH; auto. intros y Hy. apply Hd. right. exact Hy.
+  Qed.
+  Lemma NoDup_flat_map_disjoint {A B} (f : A -> list B) l :
+    NoDup l -> (forall x, In x l -> NoDup (f x)) ->
+    (forall x y b, In x l -> In y l -> x <> y -> In b (f x) -> In b (f y) -> False) -> NoDup (flat_map f l).
+  Proof.
+    induction l as [|x l IH]; intros Hn H1 H2; cbn; [constructor|].
+    inversion Hn as [|? ? Hx Hn']; subst. apply NoDup_app_intro.
+    - apply H1. left. reflexivity.
+    - apply IH; auto; [intros a Ha; apply H1; right; exact Ha|]. intros a b c Ha Hb. apply H2; right; assumption.
+    - intros b Hb Hb'. apply in_flat_map in Hb'. destruct Hb' as [y [Hy Hby]].
+      apply (H2 x y b); auto; [left; reflexivity|right; exact Hy|]. intros ->. contradiction.
+  Qed.
+
+  (* in a well-formed tree every visible entry is listed once: together with traversal_exact, the traversal reports
+     each non-ignored entry exactly once *)
+  Theorem entries_NoDup spec : forall t p, wf_tree t -> NoDup (map fst (entries matches C spec p t)).
+  Proof.
+    induction t as [c|h kids IH] using node_ind'; intros p Hw; [constructor|].
+    inversion Hw as [|? ? Hnames Hkids]; subst.
+    rewrite entries_dir, flat_map_concat_map, concat_map, map_map, <- flat_map_concat_map.
+    assert (Hnk : NoDup kids).
+    { clear -Hnames. induction kids as [|nk ks IHk]; [constructor|]. cbn in Hnames. inversion Hnames; subst.
+      constructor; [|apply IHk; assumption]. intros Hin. apply H1. apply in_map. exact Hin. }
+    apply NoDup_flat_map_disjoint; [exact Hnk| |].
+    - intros nk Hin. unfold entries_of_kid. destruct (ignored matches spec (p ++ [fst nk])); [constructor|].
+      cbn [map fst]. constructor.
+      + intros Hq. apply in_map_iff in Hq. destruct Hq as [[q d] [Hq1 Hq2]]. cbn in Hq1. subst q.
+        destruct (entries_below spec _ _ _ _ Hq2) as [n [s Hs]]. apply (f_equal (@length text)) in Hs.
+        rewrite !app_length in Hs. cbn in Hs. lia.
+      + rewrite Forall_forall in IH, Hkids. apply IH; auto.
+    - intros x y b Hx Hy Hxy Hbx Hby.
+      apply in_map_iff in Hbx. destruct Hbx as [[q d] [Hq Hbx]]. apply in_map_iff in Hby. destruct Hby as [[q' d'] [Hq' Hby]].
+      cbn in Hq, Hq'. subst q q'.
+      destruct (entries_of_kid_below spec p x b d Hbx) as [s Hs]. destruct (entries_of_kid_below spec p y b d' Hby) as [s' Hs'].
+      rewrite Hs in Hs'. apply app_inv_head in Hs'. injection Hs' as Hn _.
+      apply Hxy. eapply (NoDup_key_inj (@fst text node) kids); eauto.
+  Qed.
+End WfTree.
